@@ -121,7 +121,8 @@ theorem readVolumeLabelFromRootDir_propagates : Propagates readVolumeLabelFromRo
     three entries with `write_entry`, the outcomes of THAT roll-back (`EntryRollbackX`) are tolerated too:
     `ApiX = RollbackErr ∨ EntryRollbackX` (both: an error of a roll-back run after the fault).
     Props/C09wview.lean: on writable directories `EntryRollbackX` is excluded (`createDir_propagates_wview`), and for the
-    fixed root as parent `RollbackErr` too (`createDir_propagates_root_plain`: plain `Propagates`). -/
+    fixed root as parent `RollbackErr` too (`createDir_propagates_root_plain`: plain `Propagates`), and for
+    cluster-chain parents as well (`createDir_propagates_wview_plain`, `createDir_propagates_chain_plain`). -/
 theorem createDir_propagates_partial (env : Env) (fuel : Nat) (d : DirStream) (path : String) :
     PropagatesX ApiX (createDir env fuel d path) := createDir_propagatesX env fuel d path
 
